@@ -11,7 +11,8 @@ package contextualizers
 //@ func (*genericContextualizer).calculateCacheKey
 //@   props C11
 //@   nomaprange Write
-//@   ensures ehash.n == old(ehash.n) + 1 && shash.n == old(shash.n) + 1 && shash.arg0[old(shash.n)] == sub
-//@   ensures hw.n >= old(hw.n) + 7
-//@   ensures hw.arg1[old(hw.n)] == ehash.ret0[old(ehash.n)] && hw.arg1[old(hw.n) + 1] == bytesOf(old(h.id)) && hw.arg1[old(hw.n) + 4] == bytesOf(payload)
-//@   ensures hw.arg1[old(hw.n) + 6] == shash.ret0[old(shash.n)]
+//@   ensures shanew.n > old(shanew.n) && ehash.n == old(ehash.n) + 1 && shash.n == old(shash.n) + 1 && shash.arg0[old(shash.n)] == sub
+//@   ensures (exists k int :: old(hw.n) <= k && k < hw.n && hw.arg0[k] == shanew.ret0[old(shanew.n)] && hw.arg1[k] == ehash.ret0[old(ehash.n)])
+//@   ensures (exists k int :: old(hw.n) <= k && k < hw.n && hw.arg0[k] == shanew.ret0[old(shanew.n)] && hw.arg1[k] == bytesOf(old(h.id)))
+//@   ensures (exists k int :: old(hw.n) <= k && k < hw.n && hw.arg0[k] == shanew.ret0[old(shanew.n)] && hw.arg1[k] == bytesOf(payload))
+//@   ensures (exists k int :: old(hw.n) <= k && k < hw.n && hw.arg0[k] == shanew.ret0[old(shanew.n)] && hw.arg1[k] == shash.ret0[old(shash.n)])
